@@ -144,8 +144,10 @@ class BaseKey(t.Generic[NativePrivateKey, NativePublicKey], metaclass=ABCMeta):
             data.update(self.extra_parameters)  # type: ignore
         data["kty"] = self.key_type
         self.validate_dict_key(data)
-        self._dict_value = data
-        return data
+        # fill the existing dict instead of replacing it: another thread may have
+        # built the same view meanwhile and already stored the "kid" in it
+        self._dict_value.update(data)
+        return self._dict_value
 
     @property
     def public_key(self) -> NativePublicKey:
@@ -179,8 +181,9 @@ class BaseKey(t.Generic[NativePrivateKey, NativePublicKey], metaclass=ABCMeta):
             data.update(params)
             return data
 
-        # clear private fields
-        for k in self.dict_value:
+        # clear private fields (iterate over the copy: the key's own dict may
+        # receive its "kid" from another thread at any time)
+        for k in list(data):
             if k in self.value_registry and self.value_registry[k].private:
                 del data[k]
 
